@@ -25,31 +25,33 @@ ASSUMPTIONS = [
     "sequences are chained in one application instance separated by a successful feed (which clears the count); the reference counter runs along",
     "command payload schemas inside the NCP model are bellows' own tables",
 ]
-PROBES = ["feed.S", "feed.T", "feed.E", "feed.T2", "feed.E2", "raised", "raised_again_on_6th", "read_and_clear_used", "loop_connection_lost", "loop_survived_4_failures",
+PROBES = ["feed.V", "feed.S", "feed.T", "feed.E", "feed.T2", "feed.E2", "raised", "raised_again_on_6th", "read_and_clear_used", "loop_connection_lost", "loop_survived_4_failures",
           "v4_nop", "success_after_4_failures"]
 
 MAXF = 4
 PERIOD = 180
+ALPHA = "STEV"  # success / no reply / invalidCommand / success with the free-buffer read answered by an error status
 KEEPALIVE = ("nop", "readCounters", "readAndClearCounters")
 
 
 def plan(tier):
-    k = 7 if tier == "quick" else 9
+    k = 6 if tier == "quick" else 8
     sweeps = []
     for V in (4, 8):
-        for pre in itertools.product("STE", repeat=2):
+        for pre in itertools.product(ALPHA, repeat=2):
             sweeps.append(("enum", {"V": V, "prefix": "".join(pre), "k": k, "sched": False}))
     kb = 5 if tier == "quick" else 7
-    for seq in itertools.product("STE", repeat=kb):
+    for seq in itertools.product("STEV", repeat=kb):
         if seq[0] != "S":  # sequences starting with S are covered by a shorter one shifted by a feed
             sweeps.append(("boundary", {"V": 8, "seq": "".join(seq), "sched": False}))
     for V in (4, 5, 8, 13, 14):
         sweeps.append(("loop", {"V": V, "script": "SSTTTTSTTTTT", "sched": False}))
         sweeps.append(("loop", {"V": V, "script": "TETET", "sched": False}))
         sweeps.append(("loop", {"V": V, "script": "TTTTSTTTTSEEEEE", "sched": False}))
+        sweeps.append(("loop", {"V": V, "script": "TTTTVTTTTVEEEEE", "sched": False}))
     return {
         "sweeps": sweeps,
-        "exhaustive": f"all outcome sequences over {{success, no reply, invalidCommand}} of length <= {k} for a v4 and a v8 NCP through watchdog_feed(); scripted runs of the real watchdog loop on v4/5/8/13/14",
+        "exhaustive": f"all outcome sequences over {{success, no reply, invalidCommand, success with free-buffer read refused}} of length <= {k} for a v4 and a v8 NCP through watchdog_feed(); scripted runs of the real watchdog loop on v4/5/8/13/14",
         "random": [("long", {}, 1), ("loop", {}, 1)],
         "runs": 120 if tier == "quick" else None,
         "budget_s": 60 if tier == "quick" else 900,
@@ -84,6 +86,10 @@ def run(scenario, params, tape, detail=False):
             return
         if hit and o[0] == "E":
             payload = Z.header(ncp.V, req.seq, Z.ID_INVALID_COMMAND) + ncp.invalid_body(0x31)
+        if o == "V" and is_second:
+            # the firmware does not expose the free-buffer count: a legal answer, the feed still succeeds
+            from ..ncpmodel import St
+            payload = ncp.encode_rsp(req, (St("INVALID_ID"), b""))
         req.nrsp += 1
         ncp.emit(payload, 0.0, "rsp", req.seq)
 
@@ -98,7 +104,7 @@ def run(scenario, params, tape, detail=False):
         else:
             ref["count"] += 1
             cmd = "readAndClearCounters" if ref["count"] % PERIOD == 0 else "readCounters"
-        if outcome == "S" or (V == 4 and outcome in ("T2", "E2")):
+        if outcome in ("S", "V") or (V == 4 and outcome in ("T2", "E2")):
             ref["fails"] = 0
             return cmd, False
         ref["fails"] += 1
@@ -141,7 +147,7 @@ def run(scenario, params, tape, detail=False):
         if scenario == "enum":
             k, prefix = params["k"], params["prefix"]
             for n in range(len(prefix), k + 1):
-                for rest in itertools.product("STE", repeat=n - len(prefix)):
+                for rest in itertools.product(ALPHA, repeat=n - len(prefix)):
                     seq = prefix + "".join(rest)
                     nseq[0] += 1
                     before4 = False
@@ -150,7 +156,7 @@ def run(scenario, params, tape, detail=False):
                             probe("success_after_4_failures")
                         await feed(app, o, f"seq={seq} step {i}")
                     await feed(app, "S", f"seq={seq} separator")
-                    if "T" in seq or "E" in seq:
+                    if "T" in seq or "E" in seq or "V" in seq:
                         sigs.add(hashlib.blake2b(repr((V, "feed", seq)).encode(), digest_size=8).digest())
                     if len(samples) < 1 and ("T" in seq and "E" in seq and len(seq) >= 6):
                         samples.append({"V": V, "mode": "watchdog_feed", "sequence": seq})
@@ -173,7 +179,7 @@ def run(scenario, params, tape, detail=False):
             seq = []
             run_len = 0
             for i in range(n):
-                o = ("S", "S", "S", "T", "E", "T2", "E2", "T")[tape.draw(8, "o")]
+                o = ("S", "S", "V", "T", "E", "T2", "E2", "T")[tape.draw(8, "o")]
                 seq.append(o)
             nseq[0] += 1
             for i, o in enumerate(seq):
@@ -182,7 +188,7 @@ def run(scenario, params, tape, detail=False):
             samples.append({"V": V, "mode": "watchdog_feed (long)", "sequence_head": "".join(x[0] for x in seq[:60])})
         else:
             # the real watchdog loop in virtual time
-            script = params.get("script") or "".join(("S", "S", "T", "E", "T")[tape.draw(5, "o")] for _ in range(6 + tape.draw(30, "n")))
+            script = params.get("script") or "".join(("S", "V", "T", "E", "T")[tape.draw(5, "o")] for _ in range(6 + tape.draw(30, "n")))
             nseq[0] += 1
             idx = [0]
             feeds = []
@@ -206,7 +212,7 @@ def run(scenario, params, tape, detail=False):
             # reference: position of the first feed that is the 5th consecutive failure
             fails, stop_at = 0, None
             for i, o in enumerate(script):
-                fails = 0 if o == "S" else fails + 1
+                fails = 0 if o in ("S", "V") else fails + 1
                 if fails > MAXF:
                     stop_at = i
                     break
